@@ -244,3 +244,4 @@ from sa.selftest import VP  # noqa
 VP('C09', 'C09-e1', 'C09.R12', 'slot=_tx_count')
 VP('C09', 'C09-e2', 'C09.R4', 'modaliases')
 VP('C09', 'C09-e3', 'C09.R12', 'reaches-worker')
+VP('C09', 'C09-f3', 'C09.R14', 'remember-after-compile')
